@@ -67,15 +67,17 @@ def _strip_comments(src):
     return src
 
 
-def lean_build():
-    """lake build (no-op when up to date); returns (ok, log)."""
+def lean_build(prop=None):
+    """lake build of the driver and of this property's theorem file only (no-op when up to date), so that a
+    broken obligation of another property cannot turn this check red; returns (ok, log)."""
     os.makedirs(os.path.join(LEAN, ".lake"), exist_ok=True)
     subprocess.run([sys.executable, os.path.join(VERIF, "tools", "regen_index.py")], check=True)
     lock = open(os.path.join(LEAN, ".lake", "verif.lock"), "w")
     fcntl.flock(lock, fcntl.LOCK_EX)
     try:
+        targets = ["driver"] + ([f"VirVerif.Properties.{prop}"] if prop else ["VirVerif"])
         p = subprocess.run(
-            ["lake", "build"], cwd=LEAN, capture_output=True, text=True, timeout=3000
+            ["lake", "build"] + targets, cwd=LEAN, capture_output=True, text=True, timeout=3000
         )
         return p.returncode == 0, p.stdout + p.stderr
     finally:
@@ -246,7 +248,7 @@ class Check:
 
     # ---- Lean side ----------------------------------------------------
     def lean(self, extra_modules=()):
-        ok, log = lean_build()
+        ok, log = lean_build(self.prop)
         if not ok:
             self.proof_problems.append("lake build failed:\n" + log[-1500:])
             self.build_log = log
